@@ -104,6 +104,13 @@ CHECKS = {
              "id, unreadable path) the raw answers are validated by TraceSession!LookupViol: inverse at definitions, resolution in the declared target path, block-local names stay "
              "in their block.",
         ref="DESIGN.md 5/C11", technique="TLC model checking of Refs.tla (MC_Refs) + replay of TLC-generated worlds + TLC trace validation of real lookup answers"),
+    "C09": dict(
+        text="Targets.tla defines TargetsP(schema, document) over the abstract schema of BodyRules extended with address schemas (steps from static names, labels, attribute "
+             "values; as reference / as type of an attribute / body as data / dependent body as data / TargetableAs / any-attribute / count and for_each), reusing Effective(). MC_Targets "
+             "enumerates documents over a pool of declarations x schema variants, checks sanity invariants and prints the cases; TraceTargets compares the real CollectReferenceTargets with "
+             "TargetsP as exact sets of (address, local address, scope, type, extent, header) and evaluates the structural predicates on nested targets (one step, index = source order, key = "
+             "written key, inside the parent) on these and on the target trees of five curated worlds.",
+        ref="DESIGN.md 5/C09", technique="TLC model checking of Targets.tla (MC_Targets) + replay of TLC-generated cases + TLC trace validation (TraceTargets)"),
 }
 
 NOT_YET = {
